@@ -127,8 +127,10 @@ func (node *PFCPNode) Serve() {
 		case rAddr := <-node.pConnDone:
 			node.pConns.Delete(rAddr)
 			logger.PfcpLog.Infoln("removed connection to", rAddr)
+			verifPoint("node.done.recv", rAddr)
 		case <-node.ctx.Done():
 			shutdown = true
+			verifPoint("node.stop.begin")
 
 			logger.PfcpLog.Infoln("shutting down PFCP node")
 
@@ -156,6 +158,8 @@ func (node *PFCPNode) Serve() {
 				}
 			}
 
+			verifPoint("node.stop.afterDrain")
+
 			if len(node.pConnDone) > 0 {
 				for rAddr := range node.pConnDone {
 					node.pConns.Delete(rAddr)
@@ -163,10 +167,13 @@ func (node *PFCPNode) Serve() {
 				}
 			}
 
+			verifPoint("node.stop.beforeClose")
 			close(node.pConnDone)
 			logger.PfcpLog.Infoln("done waiting for PFCPConn completions")
 
+			verifPoint("node.stop.beforeExit")
 			node.upf.Exit()
+			verifPoint("node.stop.end")
 		}
 	}
 
